@@ -175,7 +175,14 @@ fn run_op(c: &mut Ctx, op: &Value) -> Value {
                 depots.push(json!({"id": nw.get_depot(d).id(), "total": nw.total_capacity_of(d), "per_type": caps,
                     "location": nw.locations().get_id(nw.get_depot(d).location()).unwrap(), "overflow": d == nw.overflow_depot_idxs().0}));
             }
-            json!({"nodes": nodes, "depots": depots, "planning_days": dur_json(nw.planning_days())})
+            let mut travel = serde_json::Map::new();
+            for a in nw.locations().iter() {
+                for b in nw.locations().iter() {
+                    travel.insert(format!("{}>{}", nw.locations().get_id(a).unwrap(), nw.locations().get_id(b).unwrap()),
+                        json!([dur_json(nw.locations().travel_time(a, b)), dist_json(nw.locations().distance(a, b))]));
+                }
+            }
+            json!({"nodes": nodes, "depots": depots, "planning_days": dur_json(nw.planning_days()), "travel": travel})
         }
         "formation_limit" => json!(nw.maximal_formation_count_for(c.node(&op["node"]))),
         "required" => {
@@ -248,6 +255,12 @@ fn run_op(c: &mut Ctx, op: &Value) -> Value {
                 c.tours.insert(n.to_string(), nt);
             }
             j
+        }
+        "formation_op" => {
+            match solution::verif_access::formation_op(op["n"].as_u64().unwrap() as usize, op["what"].as_str().unwrap(), op["i"].as_u64().unwrap_or(0) as usize, nw.clone()) {
+                Ok(v) => json!({"ok": v}),
+                Err(e) => json!({"err": e}),
+            }
         }
         "tour_remove" => {
             let t = c.tours[op["tour"].as_str().unwrap()].clone();
